@@ -58,10 +58,10 @@ def ev(e, env: Dict[str, float]) -> float:
 
 def gen_spec(rng, name: str) -> Dict[str, Any]:
     n = rng.choice([1, 2, 2, 3])
-    params = rng.sample(NAMES, n)
-    mo = rng.choice(["obj", "self_", "phi"]) if rng.random() < 0.3 else None
-    if mo in params:
-        mo = None
+    mo = rng.choice(["obj", "self_", "jet_p"]) if rng.random() < 0.3 else None
+    # a template that calls methods of the method object must not have parameters named like those methods
+    # (their whole-word occurrences WOULD be replaced, as specified): such specifications have no defined meaning
+    params = rng.sample([p for p in NAMES if mo is None or p not in JET], n)
     temps, lines, trees = [], [], []
     for i in range(rng.choice([0, 1, 1, 2])):
         t = gen_expr(rng, params + temps, mo)
